@@ -33,6 +33,10 @@ class CombinedDataHandler:
         self.current_data = current_data
         self.geographic_unit_type = geographic_unit_type
         data = preprocessed_data.merge(current_data, how="left", on=["postal_code", "geographic_unit_fips"])
+        # a unit the feed gives no expected vote for has, as far as we know, nothing of its vote in: that is 0 percent, a
+        # number wherever it is used (reporting threshold, bounds of the bootstrap model), not a NaN that spreads from there
+        if "percent_expected_vote" in data.columns:
+            data["percent_expected_vote"] = data["percent_expected_vote"].fillna(0)
         data = estimandizer.add_turnout_factor(data)
         # if unreporting is 'drop' then drop units that are not reporting (ie. units where results are na)
         # this is necessary if units will not be returning results in this election,
